@@ -352,9 +352,9 @@ def c03(tier, seed):
     # platform errors (error.execution) are internal events like any other: content blocks that raise, send to #_internal
     # and fail in between (the C08 family) exercise the FIFO order of mixed enqueues
     docs += docgen.c08_docs(random.Random(seed + 7), 4 if tier == "quick" else 16, max_variants=5)
-    # (docgen.guard_error_docs() - guards that fail to evaluate queue error.execution during the *selection*, outside any
-    # microstep - are not part of the family yet: tracelib.selection() does not accept an enqueue record between the selection
-    # bracket and its result, such traces end as class "shape", which no property owns; see DESIGN 11.7, seeded change C03-d)
+    # guards that fail to evaluate queue error.execution during the *selection* (outside any microstep): the macrostep is not
+    # over while that event waits
+    docs += docgen.guard_error_docs()
     return core_check("C03", tier, seed, docs,
                       {"rtc-eventless-first", "rtc-iq-empty", "rtc-fifo", "rtc-idle-with-iq", "xorder", "noop"},
                       max_ev=ev, max_q=1, modes=("preload", "step"),
